@@ -214,6 +214,23 @@ def _fuzz(name, srcs, prop, secs, jobs, agg, max_len=2048, extra=None, timeout_s
     return {key: stats}
 
 
+def check_C06(tier):
+    t0 = time.time()
+    b = compile_bin('gridcheck', ['checks/gridcheck.cc'], 'fast', ref=True)
+    shots = '60' if tier == 'thorough' else '6'
+    reps = run_native(b, ['--seed', str(seed()), '--shots', shots, '--known', known_tsv('C06')], NCPU, 'C06')
+    agg = Agg('C06')
+    agg.add(reps)
+    rule = ('finite grid enumerated completely in both tiers: (51 published isotopes + 7 names both sides must refuse) x levels -1..17 x modes 0..25, through genbbsub '
+            '(vs reference ier + README mode-20 rule) and through decay0_generator::initialize with 5 window kinds (none, valid, inverted, min==max, entirely above e0; on capable and '
+            'non-capable modes); every accepted legacy point shoots N events through the C03/C04 predicates (N=6 quick, 60 thorough); every rejected point must refuse '
+            'shoot(); 24 labels round-trip, 7 unknown labels; distinct = grid points')
+    return verdict(agg, tier, t0, rule, REF_ASSUME[:2] + ['names are compared only on published spellings and on names both the reference and the port must refuse (the reference\'s '
+                   'case-insensitive positional matching is not a published contract)', 'positive gA points (modes 21-24 on Se82/Mo100/Cd116/Nd150 level 0) need a data set and are exercised in C14; their negatives are enumerated here',
+                   'the reference is restored to its pristine static image before every point (its itrans02 is unassigned for Dy156 levels 12/13)'],
+                   extra_cov={'exhaustive': True}, min_eval=10000)
+
+
 def check_C08(tier):
     """sanitizer builds (ASan+UBSan+_GLIBCXX_ASSERTIONS) of the generation drivers + structure-aware libFuzzer target"""
     t0 = time.time()
